@@ -1,12 +1,31 @@
 //go:build verif
 
 // Contracts for package monitoring, checked by /verif/govc. Comment-only: no code.
+// A counter's value is its atomic cell (atomics are sequential read-modify-write cells here: assumed linearizable).
 package monitoring
 
-// Ghost view of a counter's value.
-//@ global counterVal map[*Counter]int
-
 //@ func (c *Counter) Add
-//@ trusted
-//@ ensures counterVal[c] == old(counterVal[c]) + delta
-//@ modifies counterVal[c]
+//@ props C03 C05
+//@ ensures [adds-the-delta] c.i == old(c.i) + delta
+//@ modifies c.i
+
+//@ func (c *Counter) Set
+//@ props C03
+//@ ensures c.i == value
+//@ modifies c.i
+
+//@ func (c *Counter) Get
+//@ props C03
+//@ modifies nothing
+//@ ensures result == c.i
+
+//@ func (c *Counter) String
+//@ props C03
+//@ modifies nothing
+
+// A new counter starts at zero and is published under the given name.
+//@ func NewCounter
+//@ props C03
+//@ may_panic true
+//@ ensures result != nil && fresh(result) && result.i == 0
+//@ at call expvar.Publish assert arg(name) == name0 && arg(v) == box(v)
